@@ -18,6 +18,7 @@
 #include <cstdlib>
 
 #include <xalanc/Include/XalanDeque.hpp>
+#include <xalanc/PlatformSupport/XalanArrayAllocator.hpp>
 #include <xercesc/framework/MemoryManager.hpp>
 
 using namespace xalanc;
@@ -79,6 +80,21 @@ int main()
                     for (unsigned i = 0; same && i < n; ++i) if (d2[i] != d1[i]) same = false;
                 }
                 std::cout << id << " c" << during << (ma.live + mb.live) << (same ? 1 : 0) << std::endl;
+                continue;
+            }
+            if (second == "arr")
+            {
+                // <id> arr <blockSize> <count>...  ->  <id> r<blocks outstanding after clear() + one more allocate + destruction>
+                unsigned abs_ = 10; in >> abs_;
+                CountMM m;
+                {
+                    XalanArrayAllocator<long> a(m, abs_);
+                    unsigned c;
+                    while (in >> c) { long* p = a.allocate(c); for (unsigned i = 0; i < c; ++i) p[i] = long(i); }
+                    a.clear();
+                    long* q = a.allocate(3); q[0] = q[1] = q[2] = 1;
+                }
+                std::cout << id << " r" << m.live << std::endl;
                 continue;
             }
             in.seekg(pos);
